@@ -30,19 +30,13 @@ fn main() {
             }
             common::cleanup();
         }
-        "BENCH" => {
-            let c = common::Case::one("{\"diagnostics.enable\":false,\"workspace.library\":[\"x\"]}");
-            for pre in [false, true] {
-                let t = std::time::Instant::now();
-                for i in 0..2000 {
-                    let mut c = c.clone();
-                    if i % 2 == 0 {
-                        c.files[0].data = common::Data::Text("{\"diagnostics.enable\":true}".into());
-                    }
-                    let _ = common::run_case(&c, pre);
-                }
-                println!("pre={pre}: {:.1} us/load", t.elapsed().as_secs_f64() * 1e6 / 2000.0);
-            }
+        "MIN" => {
+            // debugging aid: minimise --case '<case json>' for --sig '<signature>'
+            let txt = args.extra.get("case").cloned().unwrap_or_default();
+            let v: serde_json::Value = serde_json::from_str(&txt).unwrap_or_else(|e| vcore::die(&format!("bad case: {e}")));
+            let c = common::Case::from_json(&v).unwrap_or_else(|| vcore::die("bad case"));
+            let sig = args.extra.get("sig").cloned().unwrap_or_default();
+            println!("{}", c31::minimise(&c, &sig, !sig.starts_with("panic:")).to_json());
             common::cleanup();
         }
         p => vcore::die(&format!("eng_cfg does not serve {p}")),
